@@ -113,3 +113,9 @@ def bump():
     global tick
     tick += 1
     return tick
+
+
+# C19 colookup cases: every case package resolves names of its own (who00 .. who15 are this very function), so that no
+# other package of the same program has filled the shared binding before
+for _i in range(16):
+    globals()["who%02d" % _i] = who
